@@ -290,6 +290,33 @@ __CPROVER_ensures(vf_cc_xinit_ok(ctx->state, key, VF_CC_KEY_BYTES(key_size), cou
 __CPROVER_ensures(ctx->rounds == rounds)
 ;
 
+#if defined(VF_CC_GHOST_LOG) && defined(VF_CC_INIT_ABSTRACT)
+/* For the one-shot functions chacha() / xchacha(): the stream set-up is replaced by "some
+ * state st0 is established" (ghost vf_cc_st0), ks_len = 0; that st0 is the RFC / XChaCha
+ * initial state for the arguments is what the chacha.setup.*str_init jobs prove of the
+ * same functions. */
+static uint32_t vf_cc_st0[16];
+#define VF_CC_ST0_EQ(st)								\
+	((st)[0] == vf_cc_st0[0] && (st)[1] == vf_cc_st0[1] && (st)[2] == vf_cc_st0[2] && (st)[3] == vf_cc_st0[3] && \
+	 (st)[4] == vf_cc_st0[4] && (st)[5] == vf_cc_st0[5] && (st)[6] == vf_cc_st0[6] && (st)[7] == vf_cc_st0[7] && \
+	 (st)[8] == vf_cc_st0[8] && (st)[9] == vf_cc_st0[9] && (st)[10] == vf_cc_st0[10] && (st)[11] == vf_cc_st0[11] && \
+	 (st)[12] == vf_cc_st0[12] && (st)[13] == vf_cc_st0[13] && (st)[14] == vf_cc_st0[14] && (st)[15] == vf_cc_st0[15])
+#define VF_CC_STR_INIT_ABSTRACT(fn, ivlen)						\
+static inline void fn(chacha_context_str_p ctx, const uint8_t *key, const size_t key_size,	\
+    const uint8_t *counter, const uint8_t *iv, const size_t rounds)			\
+__CPROVER_requires(__CPROVER_w_ok(ctx, sizeof(chacha_context_str_t)))			\
+__CPROVER_requires(VF_CC_KEY_SIZE_OK(key_size))						\
+__CPROVER_requires(__CPROVER_r_ok(key, VF_CC_KEY_BYTES(key_size)))			\
+__CPROVER_requires(VF_CC_OPT_R(counter, 8) && VF_CC_OPT_R(iv, ivlen))			\
+__CPROVER_requires(VF_CC_ROUNDS_OK(rounds))						\
+__CPROVER_assigns(__CPROVER_object_upto(ctx->c.state, CHACHA_BLOCK_LEN), ctx->c.rounds, ctx->ks_len) \
+__CPROVER_assigns(__CPROVER_object_whole(vf_cc_st0))					\
+__CPROVER_ensures(VF_CC_ST0_EQ(ctx->c.state))						\
+__CPROVER_ensures(ctx->c.rounds == rounds && ctx->ks_len == 0)				\
+;
+VF_CC_STR_INIT_ABSTRACT(chacha_str_init, CHACHA_IV_LEN)
+VF_CC_STR_INIT_ABSTRACT(xchacha_str_init, XCHACHA_IV_LEN)
+#else
 static inline void
 chacha_str_init(chacha_context_str_p ctx, const uint8_t *key, const size_t key_size,
     const uint8_t *counter, const uint8_t *iv, const size_t rounds)
@@ -315,6 +342,23 @@ __CPROVER_ensures(vf_cc_xinit_ok(ctx->c.state, key, VF_CC_KEY_BYTES(key_size), c
 __CPROVER_ensures(ctx->c.rounds == rounds && ctx->ks_len == 0)
 ;
 
+
+#endif /* VF_CC_INIT_ABSTRACT */
+
+/* ---- wiping ---- */
+static size_t vf_cc_w;	/* ghost byte index */
+static inline void
+chacha_final(chacha_context_p ctx)
+__CPROVER_requires(__CPROVER_w_ok(ctx, sizeof(chacha_context_t)))
+__CPROVER_assigns(__CPROVER_object_upto(ctx, sizeof(chacha_context_t)))
+__CPROVER_ensures(vf_cc_w < sizeof(chacha_context_t) ==> ((const uint8_t *)ctx)[vf_cc_w] == 0)
+;
+static inline void
+chacha_str_final(chacha_context_str_p ctx)
+__CPROVER_requires(__CPROVER_w_ok(ctx, sizeof(chacha_context_str_t)))
+__CPROVER_assigns(__CPROVER_object_upto(ctx, sizeof(chacha_context_str_t)))
+__CPROVER_ensures(vf_cc_w < sizeof(chacha_context_str_t) ==> ((const uint8_t *)ctx)[vf_cc_w] == 0)
+;
 
 /* ---- chacha_blocks_transform: block functions replaced by their contract ---- */
 /* ghost indices: unconstrained file-scope values, so a clause "j < n ==> P(j)" is "for all j < n" */
@@ -443,5 +487,36 @@ __CPROVER_ensures(vf_cc_j < __CPROVER_old(vf_cc_n) ==>
      VF_CC_LOG_KEEP(12) && VF_CC_LOG_KEEP(13) && VF_CC_LOG_KEEP(14) && VF_CC_LOG_KEEP(15)))
 ;
 #endif /* VF_CC_GHOST_LOG */
+
+/* ---- one-shot chacha() / xchacha(): set-up, one stream call, wipe ----
+ * chacha_str_init / xchacha_str_init (abstract, above), chacha_str_data_crypt and
+ * chacha_str_final are replaced by their contracts.  Output byte k is source byte k xor byte
+ * k mod 64 of block k / 64, block j computed from the established initial state advanced by
+ * j; nothing but dst is written (the context is a local, wiped before return). */
+#if defined(VF_CC_GHOST_LOG) && defined(VF_CC_INIT_ABSTRACT)
+#define VF_CC_NBLK(bytes)	(((bytes) + CHACHA_BLOCK_LEN - 1) / CHACHA_BLOCK_LEN)
+#define VF_CC_ONESHOT_CONTRACT(fn, ivlen)						\
+static inline void fn(const uint8_t *key, const size_t key_size, const uint8_t *counter,	\
+    const uint8_t *iv, const size_t rounds, const uint8_t *src, const size_t bytes, uint8_t *dst) \
+__CPROVER_requires(VF_CC_KEY_SIZE_OK(key_size))						\
+__CPROVER_requires(__CPROVER_r_ok(key, VF_CC_KEY_BYTES(key_size)))			\
+__CPROVER_requires(VF_CC_OPT_R(counter, 8) && VF_CC_OPT_R(iv, ivlen))			\
+__CPROVER_requires(VF_CC_ROUNDS_OK(rounds))						\
+__CPROVER_requires(bytes <= VF_CC_MAX_BYTES)						\
+__CPROVER_requires(bytes == 0 || src == NULL || __CPROVER_r_ok(src, bytes))		\
+__CPROVER_requires(bytes == 0 || __CPROVER_w_ok(dst, bytes))				\
+__CPROVER_requires(vf_cc_n <= VF_CC_MAXBLK && VF_CC_NBLK(bytes) <= VF_CC_MAXBLK - vf_cc_n)	\
+__CPROVER_assigns(vf_cc_n, __CPROVER_object_whole(vf_cc_log), __CPROVER_object_whole(vf_cc_st0)) \
+__CPROVER_assigns(bytes != 0: __CPROVER_object_upto(dst, bytes))			\
+__CPROVER_ensures(vf_cc_n == __CPROVER_old(vf_cc_n) + VF_CC_NBLK(bytes))		\
+__CPROVER_ensures(vf_cc_k < bytes ==>							\
+    dst[vf_cc_k] == (uint8_t)(VF_CC_SRCK_OLD(src, vf_cc_k, bytes) ^			\
+	VF_CC_SER(vf_cc_log[__CPROVER_old(vf_cc_n) + vf_cc_k / CHACHA_BLOCK_LEN].x, vf_cc_k % CHACHA_BLOCK_LEN))) \
+__CPROVER_ensures(vf_cc_j < VF_CC_NBLK(bytes) ==>					\
+    VF_CC_STATE_AT(vf_cc_log[__CPROVER_old(vf_cc_n) + vf_cc_j].st, vf_cc_st0, vf_cc_st0[12], vf_cc_st0[13], vf_cc_j)) \
+;
+VF_CC_ONESHOT_CONTRACT(chacha, CHACHA_IV_LEN)
+VF_CC_ONESHOT_CONTRACT(xchacha, XCHACHA_IV_LEN)
+#endif
 #endif /* !VF_REPLAY */
 #endif
